@@ -18,8 +18,11 @@ R-C08.4  CFG construction: dead code after a jump hangs off the block that jumpe
          unreachable->reachable edges symmetrically.
 R-C08.5  path-dependent types: check_rows_match raises iff some variable's type differs between the
          two rows (all small row pairs, c08_rows.py below); check_cfg compares revisited blocks.
-R-C08.6  per-block summaries: a name counts as used by a block only if it is read before the block assigns it
-         (c08_blockuse.py, below).
+R-C08.6  per-block summaries: BB.compute_variable_stats with the whole VariableVisitor is interpreted on 18 small blocks
+         (token trees of AST nodes; NodeVisitor protocol supplied by the interpreter): `used` = names read before the block
+         assigns them, `assigned` = names it assigns -- for plain / augmented / annotated / attribute / subscript / tuple
+         targets, comprehensions, nested functions, modifier blocks, comptime expressions, the branch predicate
+         (c08_stats.py; the def-use shape rule of c08_blockuse.py only as fallback).
 Not decided: that the CFG has exactly Python's paths.
 """
 
@@ -196,8 +199,9 @@ def run(ctx: Ctx) -> None:
     c08_rows.run(ctx)
 
     # ------------------------------------------------------------ R-C08.6 per-block use/assign summaries
-    from . import c08_blockuse
-    c08_blockuse.run(ctx)
+    from . import c08_blockuse, c08_stats
+    if not c08_stats.run(ctx):
+        c08_blockuse.run(ctx)  # fallback: def-use shape of the statements that add to `used`
 
 
 def _exprs(n):
